@@ -4,6 +4,7 @@ package corebgp
 
 import (
 	"errors"
+	"net"
 	"net/netip"
 	"time"
 )
@@ -127,4 +128,58 @@ func VerifDecodePrefixes(b []byte, ipv6 bool) ([]netip.Prefix, error) {
 
 func VerifDecodeAddPathPrefixes(b []byte, ipv6 bool) ([]AddPathPrefix, error) {
 	return decodeAddPathPrefixes(b, ipv6)
+}
+
+// VerifDelayRun drives peer.updateStartupDelay over a history of protocol errors whose
+// spacing is given by gaps (the previous error is back-dated instead of waiting) and
+// returns the startup delay after each error.
+func VerifDelayRun(gaps []time.Duration) []time.Duration {
+	p := newPeer(PeerConfig{}, 0, nil, defaultPeerOptions())
+	defer p.startupDelayTimer.Stop()
+	out := make([]time.Duration, 0, len(gaps))
+	for i, g := range gaps {
+		if i > 0 {
+			last := time.Now().Add(-g)
+			p.lastProtoError = &last
+		}
+		p.updateStartupDelay()
+		out = append(out, p.startupDelay)
+	}
+	return out
+}
+
+// VerifServing reports Server.serving under the lock.
+func VerifServing(s *Server) bool {
+	s.mu.Lock()
+	defer s.mu.Unlock()
+	return s.serving
+}
+
+// VerifAdmit runs handleInboundConn for conn while draining every peer's inConnCh, so
+// that a hand-off to a (not running) peer is observable. It returns the remote address of
+// the peer the connection was handed to, if any.
+func VerifAdmit(s *Server, conn net.Conn) (netip.Addr, bool) {
+	done := make(chan struct{})
+	res := make(chan netip.Addr, 1)
+	s.mu.Lock()
+	for _, p := range s.peers {
+		go func(p *peer) {
+			select {
+			case c := <-p.inConnCh:
+				if c == conn {
+					res <- p.config.RemoteAddress
+				}
+			case <-done:
+			}
+		}(p)
+	}
+	s.mu.Unlock()
+	s.handleInboundConn(conn)
+	close(done)
+	select {
+	case a := <-res:
+		return a, true
+	case <-time.After(50 * time.Millisecond):
+		return netip.Addr{}, false
+	}
 }
